@@ -136,6 +136,10 @@ structure ImplSummary where
   wn : Nat := 0
   wfin : Bool := false
   wprev : Bool := false
+  /-- centre:lo:hi (bit patterns) of the summaries of the same measurements in two other arrival
+  orders (reversed; odd positions first) -/
+  rev : String := ""
+  alt : String := ""
 
 def okIf (b : Bool) (reason : String) : String := if b then "ok" else reason
 
@@ -244,6 +248,13 @@ def classX3 (x1 x2 : List Rat) (k : Int := 0) : Bool :=
 
 def kfTag (cls : Bool) (id : String) : String := if cls then " kf=" ++ id else ""
 
+/-- "invariant under reordering each sample": the summary of the same measurements in another arrival
+order is the same BIT FOR BIT — including the sign of a zero centre or end (fix F27: −0 and +0 used
+to stay in arrival order) -/
+def judgeReorder (i : ImplSummary) : String :=
+  let t := ":".intercalate ([i.center, i.lo, i.hi].map fun b => F64.toHex (F64.canonNaN b))
+  okIf (i.rev == t && i.alt == t) "depends-on-arrival-order"
+
 def judgeExact (vals : List F64.Bits) (i : ImplSummary) : String :=
   let xs := vals.map toRat
   let centre := match modeOf xs, ev i.center with
@@ -259,7 +270,7 @@ def judgeExact (vals : List F64.Bits) (i : ImplSummary) : String :=
     | _, _ => false
   let warn := okIf (i.warn == differ) (if differ then "missing-warning" else "spurious-warning")
   showVerdicts [("centre", centre), ("ends", ends), ("bracket", bracket), ("conf", conf), ("warn", warn),
-                ("pct", judgePct i.center i.lo i.hi i.pct)]
+                ("pct", judgePct i.center i.lo i.hi i.pct), ("reorder", judgeReorder i)]
 
 def judgeNothing (vals : List F64.Bits) (conf : F64.Bits) (qlo qhi : Nat) (needTab : List (Nat × Nat))
     (i : ImplSummary) : String :=
@@ -314,7 +325,7 @@ def judgeNothing (vals : List F64.Bits) (conf : F64.Bits) (qlo qhi : Nat) (needT
   -- smaller size and infinite at the size at hand, QuantileCI being non-monotone at n = 30 → 31)
   let have_ := if i.warnText.startsWith "need:ge:" then okIf (n < i.wn) "already-has-the-named-size" else "ok"
   showVerdicts [("centre", centre), ("ends", ends), ("bracket", bracket), ("conf", confV), ("warn", warn),
-                ("pct", judgePct i.center i.lo i.hi i.pct), ("needn", needn), ("have", have_)]
+                ("pct", judgePct i.center i.lo i.hi i.pct), ("reorder", judgeReorder i), ("needn", needn), ("have", have_)]
     ++ kfTag (classX1 xs) "X1"
 
 /-! ### Student-t coverage of a symmetric interval (integer degrees of freedom), evaluated independently
@@ -434,7 +445,8 @@ def judgeNormal (vals : List F64.Bits) (conf : F64.Bits) (i : ImplSummary) : Str
         else "ok"
     | _, _, _ => "ok"
   showVerdicts [("centre", centre), ("ends", ends), ("bracket", bracket), ("conf", confV), ("warn", warn),
-                ("pct", judgePct i.center i.lo i.hi i.pct), ("tcov", tcov)] ++ kfTag (classX2 xs) "X2"
+                ("pct", judgePct i.center i.lo i.hi i.pct), ("reorder", judgeReorder i), ("tcov", tcov)]
+    ++ kfTag (classX2 xs) "X2"
 
 /-! ### comparisons -/
 
